@@ -5,6 +5,7 @@ import (
 	"errors"
 	"fmt"
 	"go/format"
+	"math"
 	"net"
 	"strconv"
 
@@ -41,6 +42,39 @@ func encryptSupported(attr *dictionary.Attribute) bool {
 		return attr.FlagEncrypt.Int == dictionary.EncryptTunnelPassword && !attr.HasTag()
 	}
 	return false
+}
+
+// checkValues reports the VALUEs of attr that the integer template cannot emit:
+// a number beyond the attribute's width, or two names that normalise to the
+// same identifier for different numbers.
+func checkValues(attr *dictionary.Attribute, allValues []*dictionary.Value, external bool) error {
+	var max uint64 = math.MaxUint64
+	if !external {
+		switch attr.Type {
+		case dictionary.AttributeShort:
+			max = math.MaxUint16
+		case dictionary.AttributeInteger:
+			max = math.MaxUint32
+		case dictionary.AttributeInteger64:
+		default:
+			return nil
+		}
+	}
+	idents := map[string]*dictionary.Value{}
+	for _, value := range allValues {
+		if value.Attribute != attr.Name {
+			continue
+		}
+		if value.Number > max {
+			return fmt.Errorf("dictionarygen: value %s (%d) out of range for attribute %s", value.Name, value.Number, attr.Name)
+		}
+		ident := identifier(value.Name)
+		if existing, ok := idents[ident]; ok && existing.Number != value.Number {
+			return fmt.Errorf("dictionarygen: conflicting identifier between values %s (%d) and %s (%d) of attribute %s", existing.Name, existing.Number, value.Name, value.Number, attr.Name)
+		}
+		idents[ident] = value
+	}
+	return nil
 }
 
 func (g *Generator) Generate(dict *dictionary.Dictionary) ([]byte, error) {
@@ -163,8 +197,16 @@ func (g *Generator) Generate(dict *dictionary.Dictionary) ([]byte, error) {
 		ea.Values = append(ea.Values, value)
 	}
 	dictionary.SortValues(values)
+	for _, attr := range attrs {
+		if err := checkValues(attr, values, false); err != nil {
+			return nil, err
+		}
+	}
 	for _, ea := range externalAttributes {
 		dictionary.SortValues(ea.Values)
+		if err := checkValues(&dictionary.Attribute{Name: ea.Attribute}, ea.Values, true); err != nil {
+			return nil, err
+		}
 	}
 
 	vendors := make([]*dictionary.Vendor, 0, len(dict.Vendors))
@@ -247,6 +289,11 @@ func (g *Generator) Generate(dict *dictionary.Dictionary) ([]byte, error) {
 		vendorValues := make([]*dictionary.Value, len(vendor.Values))
 		copy(vendorValues, vendor.Values)
 		dictionary.SortValues(vendorValues)
+		for _, attr := range vendorAttributes {
+			if err := checkValues(attr, vendorValues, false); err != nil {
+				return nil, err
+			}
+		}
 
 		vendors = append(vendors, &dictionary.Vendor{
 			Name:   vendor.Name,
